@@ -81,6 +81,7 @@ def _scenario(r, idx, want=None):
     row, col = np.array(ori[:3]), np.array(ori[3:])
     s = r.choice([0.25, 0.5, 1.0, 1.0, 1.25, 2.0, 2.5, 5.0, 0.7, 0.3, 1.3])
     n = r.choice([2, 3, 3, 4, 4, 5, 5, 6, 7, 9, 12]) if sc not in ('single',) else 1
+    single_hint = r.choice([None, 0.5, -2.0, 3.25]) if sc == 'single' else None
     origin = np.array([_dy(r, -200, 200) for _ in range(3)])
     k0 = r.randint(-3, 3)
     ks = [k0 + i for i in range(n)]
@@ -189,6 +190,8 @@ def _scenario(r, idx, want=None):
     elif sc == 'all_same':
         ks = [k0] * max(n, 2)
         opts['allow_duplicate_positions'] = True
+        if r.random() < 0.5:
+            opts['spacing_hint'] = r.choice([0.5, -2.0, 3.25])
     elif sc == 'hint_drift':
         # open finding C11-hint-drift: gaps allowed, hint within the 1 % tolerance of the true spacing, long stack
         n = r.randint(70, 110)
@@ -223,6 +226,8 @@ def _scenario(r, idx, want=None):
         r.shuffle(order)
         if r.random() < 0.2:
             opts['enforce_handedness'] = True       # no effect when sorting
+    if single_hint is not None:
+        opts['spacing_hint'] = single_hint
     if conv != 'DR' or r.random() < 0.3:
         opts['index_convention'] = conv if r.random() < 0.5 else tuple(conv)
     if hand != 'RIGHT_HANDED' or r.random() < 0.3:
@@ -664,6 +669,94 @@ def _assembly_cases(ctx, reqs, pend):
                     break
 
 
+def _series_wrapper_cases(ctx, reqs, pend):
+    """get_series_volume_positions / get_dataset_sort_index / get_volume_from_series: wrapper rules around the core"""
+    import copy
+    import highdicom as hd
+    from highdicom import spatial as sp
+    from gen import sources
+    n = ctx.n(40, 500)
+    kinds = ['plain', 'plain', 'hint_ok', 'hint_bad', 'other_orientation', 'one', 'empty', 'multiframe', 'other_series',
+             'other_for', 'other_spacing', 'no_orientation']
+    for i in range(n):
+        r = ctx.rng('wrap', i)
+        kind = kinds[i % len(kinds)]
+        ori, cls = _orientation(r)
+        nsl = r.choice([2, 3, 4, 5])
+        s = r.choice([0.5, 1.0, 1.25, 2.5])
+        origin = [_dy(r, -100, 100) for _ in range(3)]
+        order = list(range(nsl))
+        r.shuffle(order)
+        dss = sources.ct_series(nsl, 2, 3, orientation=ori, origin=origin, pixel_spacing=(0.5, 0.5), slice_spacing=s, order=order,
+                                rng=np.random.default_rng(ctx.seed * 7919 + i))
+        nvol = _normal(ori, 'DR', 'RIGHT_HANDED')
+        d = [float(np.dot(np.array([float(x) for x in ds.ImagePositionPatient]), nvol)) for ds in dss]
+        rank = [sorted(d).index(x) for x in d]
+        expect = ('ok', s, rank)
+        hint = None
+        if kind == 'hint_ok':
+            hint = s
+        elif kind == 'hint_bad':
+            hint = 2 * s
+            expect = ('err',)
+        if hint is not None:
+            dss[0].SpacingBetweenSlices = hint
+        if kind == 'other_orientation':
+            j = r.randrange(1, nsl)
+            o2 = list(dss[j].ImageOrientationPatient)
+            alt, _ = _orientation(r)
+            while alt == [float(x) for x in o2]:
+                alt, _ = _orientation(r)
+            dss[j].ImageOrientationPatient = alt
+            expect = ('none',)
+        elif kind == 'one':
+            dss = dss[:1]
+            expect = ('ok', 1.0, [0])
+        elif kind == 'empty':
+            dss = []
+            expect = ('err',)
+        elif kind == 'multiframe':
+            dss[r.randrange(nsl)] = sources.enhanced_multiframe(2, 2, 3, orientation=ori)
+            expect = ('err',)
+        case = {'fn': 'get_series_volume_positions', 'kind': kind, 'i': i, 'n': len(dss)}
+        if kind in ('plain', 'hint_ok', 'hint_bad', 'other_orientation', 'one', 'empty', 'multiframe'):
+            st, val = _call(sp.get_series_volume_positions, dss)
+            obs = _observe(st, val)
+            ctx.case(scenario='series-' + kind, outcome=obs[0], nontrivial_key=('wrap', kind, len(dss), cls, obs[0]))
+            bad = (expect[0] != obs[0]) or (obs[0] == 'ok' and (obs[2] != expect[2] or abs(obs[1] - expect[1]) > 1e-6 * expect[1]))
+            if bad:
+                ctx.fail(case, {'got': obs, 'want': expect}, site='get_series_volume_positions')
+            if kind != 'multiframe':
+                args = {'positions': [RL([float(x) for x in ds.ImagePositionPatient]) for ds in dss],
+                        'orientations': [RL([float(x) for x in ds.ImageOrientationPatient]) for ds in dss]}
+                if hint is not None:
+                    args['hint'] = R(hint)
+                reqs.append(('seriesVolumePositions', args))
+                pend.append((case, obs, False))
+        # the volume builder refuses series that are not one stack of one series in one frame of reference
+        if kind in ('other_series', 'other_for', 'other_spacing', 'other_orientation', 'no_orientation'):
+            j = r.randrange(1, nsl)
+            if kind == 'other_series':
+                dss[j].SeriesInstanceUID = sources._uid()
+            elif kind == 'other_for':
+                dss[j].FrameOfReferenceUID = sources._uid()
+            elif kind == 'other_spacing':
+                dss[j].PixelSpacing = [0.25, 0.5]
+            st, val = _call(hd.get_volume_from_series, dss) if kind != 'no_orientation' else ('skip', None)
+            if kind != 'no_orientation':
+                ctx.case(scenario='volume-' + kind, outcome=st if st == 'ok' else val)
+                if st == 'ok':
+                    ctx.fail(dict(case, fn='get_volume_from_series'), 'inconsistent series assembled into a volume', site='get_volume_from_series')
+            # sorting: inconsistent orientation / missing orientation / multi-frame first are refused
+            if kind == 'no_orientation':
+                del dss[0].ImageOrientationPatient
+            if kind in ('other_orientation', 'no_orientation'):
+                st, val = _call(sp.sort_datasets, dss)
+                ctx.case(scenario='sort-' + kind, outcome=st if st == 'ok' else val)
+                if st == 'ok':
+                    ctx.fail(dict(case, fn='sort_datasets'), 'datasets without a common orientation were sorted', site='sort_datasets')
+
+
 # ------------------------------------------------------------------ run
 def _compare(ctx, reqs, pend, pend2):
     answers = ctx.model(reqs)
@@ -745,6 +838,7 @@ def run(ctx):
     stage(lambda: _integer_cases(ctx, reqs, pend), pend, 'p')
     stage(lambda: _primitive_cases(ctx, reqs, pend2), pend2, 'q')
     stage(lambda: _assembly_cases(ctx, reqs, pend), pend, 'p')
+    stage(lambda: _series_wrapper_cases(ctx, reqs, pend), pend, 'p')
     ctx._order = marks
     _compare(ctx, reqs, pend, pend2)
 
